@@ -97,12 +97,13 @@ func leanIdent(s string) string {
 }
 
 type goTranslator struct {
-	decls map[string]*ast.FuncDecl // methods of the receiver type, by name
-	cfg   codeCfg
-	pkg   *packages.Package
-	info  *types.Info
-	recvT *types.Named
-	st    *types.Struct
+	panicky map[string]bool          // methods of the receiver type whose body contains `panic(…)`
+	decls   map[string]*ast.FuncDecl // methods of the receiver type, by name
+	cfg     codeCfg
+	pkg     *packages.Package
+	info    *types.Info
+	recvT   *types.Named
+	st      *types.Struct
 }
 
 // leanType maps a Go type to the Lean type that stands for it.
@@ -238,6 +239,7 @@ type mctx struct {
 	envValue  bool            // the value being stored is itself an environment object (a parameter of interface type)
 	loopState []string        // inside the body of a general range loop: the variables it threads (nil outside)
 	retType   string          // Lean type of the method's results
+	panics    bool            // the body contains `panic(…)`: results are `Option …`, `none` = it panicked
 }
 
 func (m *mctx) fresh() string { m.tmp++; return fmt.Sprintf("t%d", m.tmp) }
@@ -709,6 +711,13 @@ func (m *mctx) call(c *ast.CallExpr) string {
 					bad("append with other than one element")
 				}
 				return "(" + m.expr(c.Args[0]) + " ++ [" + m.expr(c.Args[1]) + "])"
+			case "make":
+				if tv, ok := m.g.info.Types[c.Args[0]]; ok {
+					if _, isMap := tv.Type.Underlying().(*types.Map); isMap {
+						return "([] : " + m.g.leanType(tv.Type) + ")"
+					}
+				}
+				bad("make of something that is not a map")
 			}
 			bad("builtin %s", id.Name)
 		}
@@ -849,6 +858,9 @@ func (m *mctx) call(c *ast.CallExpr) string {
 			}
 			bad("promoted method %s", se.Sel.Name)
 		}
+		if m.g.panicky[se.Sel.Name] {
+			bad("calls %s, which may panic (a panic is represented in the result of the method that raises it only)", se.Sel.Name)
+		}
 		var args []string
 		fsig := fn.Type().(*types.Signature)
 		np := fsig.Params().Len()
@@ -891,10 +903,23 @@ func (m *mctx) call(c *ast.CallExpr) string {
 
 // ---- statements ---------------------------------------------------------------------------------------------------
 
+func isPanicCall(e ast.Expr) bool {
+	c, ok := e.(*ast.CallExpr)
+	if !ok {
+		return false
+	}
+	id, ok := c.Fun.(*ast.Ident)
+	return ok && id.Name == "panic"
+}
+
 func hasReturn(n ast.Node) bool {
 	found := false
 	ast.Inspect(n, func(x ast.Node) bool {
-		switch x.(type) {
+		switch y := x.(type) {
+		case *ast.ExprStmt:
+			if isPanicCall(y.X) {
+				found = true
+			}
 		case *ast.ReturnStmt:
 			found = true
 		case *ast.FuncLit:
@@ -934,6 +959,8 @@ func (m *mctx) alwaysJumps(stmts []ast.Stmt) bool {
 	switch s := stmts[len(stmts)-1].(type) {
 	case *ast.ReturnStmt:
 		return true
+	case *ast.ExprStmt:
+		return isPanicCall(s.X)
 	case *ast.BranchStmt:
 		return m.loopState != nil && (s.Tok == token.BREAK || s.Tok == token.CONTINUE)
 	case *ast.IfStmt:
@@ -1041,6 +1068,12 @@ func (m *mctx) assigned(stmts []ast.Stmt) (vars []string, recv bool) {
 				}
 				if id, ok := x.Fun.(*ast.Ident); ok {
 					if _, isB := m.g.info.Uses[id].(*types.Builtin); isB {
+						if id.Name == "delete" && len(x.Args) == 2 {
+							if mid, ok := x.Args[0].(*ast.Ident); ok && mid.Name != m.recv && !declared[mid.Name] && !seen[mid.Name] {
+								seen[mid.Name] = true
+								vars = append(vars, leanIdent(mid.Name))
+							}
+						}
 						break
 					}
 				}
@@ -1121,8 +1154,16 @@ func (m *mctx) stmts(list []ast.Stmt, tail func() string, ind string) string {
 			if len(x.Results) == 0 {
 				vals = append([]string{}, m.results...)
 			}
+			rv := tuple(vals)
+			if m.panics {
+				rv = "(some " + atomOf(rv) + ")"
+			}
 			if m.loopState != nil {
-				b.WriteString(ind + "(GoSem.Ctl.ret " + atomOf(tuple(vals)) + ", " + tuple(m.loopState) + ")\n")
+				b.WriteString(ind + "(GoSem.Ctl.ret " + atomOf(rv) + ", " + tuple(m.loopState) + ")\n")
+				return b.String()
+			}
+			if m.panics && !m.retOpt {
+				b.WriteString(ind + "(" + rv + ", " + leanIdent(m.recv) + ")\n")
 				return b.String()
 			}
 			if m.retOpt {
@@ -1153,6 +1194,31 @@ func (m *mctx) stmts(list []ast.Stmt, tail func() string, ind string) string {
 			if once, body, ok := m.onceDo(c); ok {
 				b.WriteString(m.onceBlock(once, body, ind))
 				continue
+			}
+			if isPanicCall(c) {
+				// `panic(v)`: the method ends here without a result (`none`); the value is not kept
+				if !m.panics || m.retOpt {
+					bad("panic in a context the translation does not cover")
+				}
+				m.flush(&b, ind)
+				if m.loopState != nil {
+					b.WriteString(ind + "(GoSem.Ctl.ret none, " + tuple(m.loopState) + ")\n")
+				} else {
+					b.WriteString(ind + "(none, " + leanIdent(m.recv) + ")\n")
+				}
+				return b.String()
+			}
+			if id, ok := c.Fun.(*ast.Ident); ok && id.Name == "delete" && len(c.Args) == 2 {
+				if _, isB := m.g.info.Uses[id].(*types.Builtin); isB {
+					if mid, ok := c.Args[0].(*ast.Ident); ok && !m.isRecv(mid) {
+						k := m.atom(c.Args[1])
+						m.flush(&b, ind)
+						n := leanIdent(mid.Name)
+						b.WriteString(fmt.Sprintf("%slet %s := GoSem.mapDel %s %s;\n", ind, n, n, k))
+						continue
+					}
+					bad("delete on something that is not a local map")
+				}
 			}
 			_ = m.expr(c)
 			m.flush(&b, ind)
@@ -1216,7 +1282,12 @@ func (m *mctx) stmts(list []ast.Stmt, tail func() string, ind string) string {
 			b.WriteString(ind + ")\n")
 			return b.String()
 		case *ast.ForStmt:
-			b.WriteString(m.forRev(x, ind))
+			if post, ok := x.Post.(*ast.IncDecStmt); ok && post.Tok == token.DEC {
+				b.WriteString(m.forRev(x, ind))
+				continue
+			}
+			b.WriteString(m.forStep(x, rest, tail, ind))
+			return b.String()
 		case *ast.RangeStmt:
 			// `for k, v := range E { … return … }` with a body that changes nothing: a search that may return early
 			if m.retOpt {
@@ -1531,6 +1602,75 @@ func (m *mctx) rangeGeneral(x *ast.RangeStmt, vars []string, recv bool, rest []a
 	default:
 		bad("range over %s", m.g.info.Types[x.X].Type)
 	}
+	b.WriteString(m.loopGeneral(src, name(x.Key), name(x.Value), x.Body, vars, recv, rest, tail, ind))
+	return b.String()
+}
+
+// forStep: `for i := A; i < B; i += S { body }` (also `i++`, `<=`): a general loop over the indices A, A+S, … below B.
+// The bound is evaluated once: the body must not assign anything the bound mentions.
+func (m *mctx) forStep(x *ast.ForStmt, rest []ast.Stmt, tail func() string, ind string) string {
+	fail := func(why string) { bad("a for loop outside the translated shapes (%s)", why) }
+	init, ok := x.Init.(*ast.AssignStmt)
+	if !ok || init.Tok != token.DEFINE || len(init.Lhs) != 1 || len(init.Rhs) != 1 {
+		fail("init")
+	}
+	idx, ok := init.Lhs[0].(*ast.Ident)
+	if !ok {
+		fail("init")
+	}
+	cond, ok := x.Cond.(*ast.BinaryExpr)
+	if !ok || (cond.Op != token.LSS && cond.Op != token.LEQ) || goExprText(cond.X) != idx.Name {
+		fail("condition")
+	}
+	step := "1"
+	switch p := x.Post.(type) {
+	case *ast.IncDecStmt:
+		if p.Tok != token.INC || goExprText(p.X) != idx.Name {
+			fail("post")
+		}
+	case *ast.AssignStmt:
+		if p.Tok != token.ADD_ASSIGN || len(p.Lhs) != 1 || goExprText(p.Lhs[0]) != idx.Name {
+			fail("post")
+		}
+		tv := m.g.info.Types[p.Rhs[0]]
+		if tv.Value == nil {
+			fail("step is not a constant")
+		}
+		step = tv.Value.ExactString()
+	default:
+		fail("post")
+	}
+	vars, recv := m.assigned(x.Body.List)
+	names := map[string]bool{idx.Name: true}
+	for _, v := range vars {
+		names[strings.Trim(v, "«»")] = true
+	}
+	if hit := usesAny([]ast.Stmt{&ast.ExprStmt{X: cond.Y}}, names); hit != "" {
+		fail("the bound mentions " + hit + ", which the body assigns")
+	}
+	for _, v := range vars {
+		if strings.Trim(v, "«»") == idx.Name {
+			fail("the body assigns the index")
+		}
+	}
+	var b strings.Builder
+	a, bnd := m.atom(init.Rhs[0]), m.atom(cond.Y)
+	m.flush(&b, ind)
+	if cond.Op == token.LEQ {
+		bnd = "(" + bnd + " + 1)"
+	}
+	if hit := usesAny(rest, declaredIn(x.Body.List)); hit != "" {
+		bad("%s declared in a loop body is also a name used after the loop", hit)
+	}
+	src := fmt.Sprintf("((GoSem.rangeStep %s %s %s).map fun i_ => (i_, i_))", a, bnd, step)
+	b.WriteString(m.loopGeneral(src, leanIdent(idx.Name), "_", x.Body, vars, recv, rest, tail, ind))
+	return b.String()
+}
+
+// loopGeneral: the common emission of range loops and index loops
+func (m *mctx) loopGeneral(src, kname, vname string, bodyStmt *ast.BlockStmt, vars []string, recv bool, rest []ast.Stmt, tail func() string, ind string) string {
+	var b strings.Builder
+	x := struct{ Body *ast.BlockStmt }{bodyStmt}
 	if hit := usesAny(rest, declaredIn(x.Body.List)); hit != "" {
 		bad("%s declared in a loop body is also a name used after the loop", hit)
 	}
@@ -1551,7 +1691,7 @@ func (m *mctx) rangeGeneral(x *ast.RangeStmt, vars []string, recv bool, rest []a
 		rho = "Unit"
 	}
 	b.WriteString(fmt.Sprintf("%slet (ctl_, %s) := GoSem.forRangeCtl (ρ := %s) %s (fun (%s, %s) %s =>\n%s%s  ) %s;\n",
-		ind, st, rho, src, name(x.Key), name(x.Value), st, body, ind, st))
+		ind, st, rho, src, kname, vname, st, body, ind, st))
 	if !hasReturn(x.Body) {
 		b.WriteString(m.stmts(rest, tail, ind))
 		return b.String()
@@ -1758,7 +1898,7 @@ func translateType(repo string, cfg codeCfg) (string, error) {
 	if !ok {
 		return "", fmt.Errorf("%s is not a struct", cfg.recvType)
 	}
-	g := &goTranslator{cfg: cfg, pkg: pkg, info: pkg.TypesInfo, recvT: named, st: st, decls: map[string]*ast.FuncDecl{}}
+	g := &goTranslator{cfg: cfg, pkg: pkg, info: pkg.TypesInfo, recvT: named, st: st, decls: map[string]*ast.FuncDecl{}, panicky: map[string]bool{}}
 	for _, file := range pkg.Syntax {
 		for _, d := range file.Decls {
 			if fd, ok := d.(*ast.FuncDecl); ok && fd.Recv != nil && len(fd.Recv.List) == 1 {
@@ -1768,6 +1908,17 @@ func translateType(repo string, cfg codeCfg) (string, error) {
 				}
 				if rt == types.Type(named) {
 					g.decls[fd.Name.Name] = fd
+					if fd.Body != nil {
+						ast.Inspect(fd.Body, func(n ast.Node) bool {
+							if _, isLit := n.(*ast.FuncLit); isLit {
+								return false
+							}
+							if es, ok := n.(*ast.ExprStmt); ok && isPanicCall(es.X) {
+								g.panicky[fd.Name.Name] = true
+							}
+							return true
+						})
+					}
 				}
 			}
 		}
@@ -2012,10 +2163,20 @@ func (g *goTranslator) method(fd *ast.FuncDecl) (mo *methodOut, err error) {
 			ret = "(" + ret + ")"
 		}
 	}
+	if g.panicky[fd.Name.Name] {
+		m.panics = true
+		if strings.Contains(ret, " ") && !strings.HasPrefix(ret, "(") {
+			ret = "(" + ret + ")"
+		}
+		ret = "Option " + ret
+	}
 	m.retType = ret
 	tail := func() string {
 		if len(resT) > 0 && len(m.results) == 0 {
 			bad("control reaches the end of a function with unnamed results")
+		}
+		if m.panics {
+			return "(some " + atomOf(tuple(m.results)) + ", " + w + ")"
 		}
 		return "(" + tuple(m.results) + ", " + w + ")"
 	}
